@@ -146,6 +146,10 @@ type run struct {
 	a   *author
 	gen *chainBlock
 	all []*chainBlock // every valid block of the tree, creation order
+	// workload mix of this run (swarm): many tickets in consecutive slots
+	ticketHeavy bool
+	// set while a to-be-damaged sibling is planned
+	moreDisputes bool
 }
 
 func path(b *chainBlock) []*chainBlock {
@@ -228,6 +232,11 @@ func runOne(r *sim.Run) {
 	}
 	ru.gen = &chainBlock{hash: gh, valid: true, oracleDone: true, accepted: true, root: root0, kvs: kv0, state: parseState(kv0)}
 	ru.gen.block.Header = ru.g.header
+	ru.gen.ticketPicks = ru.g.prefill
+	for i, id := range ru.g.prefillIDs {
+		ru.a.owners[id] = ticketOwner{val: ru.g.prefill[i][0], attempt: uint8(ru.g.prefill[i][1])}
+	}
+	ru.ticketHeavy = t.Prob(1, 3, "ticket_heavy")
 	if ru.gen.state == nil {
 		panic("cannot parse genesis export")
 	}
